@@ -1,9 +1,18 @@
 (* Property C13, closed form — in unacknowledged mode, when the EOF has overtaken file data that then never arrives,
    the receiver re-verifies at each check-timer expiry and declares Check Limit Reached EXACTLY at the L-th expiry, for
-   every check limit L >= 1: the first L-1 expiries change nothing but the counter (and log the ignored checksum
-   failure), the L-th one cancels the transaction with Check Limit Reached, reports incomplete data to the user and
-   (with closure) to the peer, and the handler is idle.  DRAFT: the prover fixes the exact outputs / log after
-   evaluating the model. *)
+   every check limit L >= 1.
+   - Expiries 1 .. L-1 (first conjunct, for every k < L): nothing is sent and nothing changes but the counter (= k), the
+     restarted timer, the clock and the log, which gets one callback of the ignored checksum failure per expiry (each
+     expiry re-verifies the file).
+   - The L-th expiry (second conjunct) re-verifies once more (L ignored-checksum-failure callbacks in all), declares
+     Check Limit Reached (handler CANCEL, its callback logged) and the SAME call completes the cancelled transaction:
+     Transaction-Finished (if enabled) with Check Limit Reached, incomplete data and the file status; the incomplete file
+     is deleted iff the remote configuration says disposition-on-cancellation (file status then Discarded Deliberately);
+     the Finished PDU is queued iff closure was requested; and the handler is idle with fresh transaction fields also in
+     the closure case: unacknowledged mode has no Finished-ACK procedure, the PDU is retrieved from an idle handler.
+   The delivery code of such a state is DATA_INCOMPLETE (hypothesis; it holds in every state reached by an EOF whose
+   checksum did not verify; proofs/CheckLimitClosedProofs.v has the form without it, [dest_check_limit_closed_gen], and
+   evaluated instances from a fresh handler). *)
 From CFDP Require Import Base LostSeg Fs Crc Checksum Handler Dest HandlerSpec.
 From CFDP.proofs Require Import CheckLimitClosedProofs.
 From RecordUpdate Require Import RecordSet.
@@ -29,28 +38,37 @@ Fixpoint expires_d (n : nat) (ms : Z) (s : dst) : dst * res Z (list (list pdu)) 
   end.
 
 Theorem c13_dest_check_limit_closed : forall (L : nat) (s : dst) (r : rcfg) (a b : Z) (d : bytes) (ck : bytes),
-  (1 <= L)%nat -> r_check_limit r = Z.of_nat L -> 0 < l_check_ms (d_cfg s) ->
+  (1 <= L)%nat -> r_check_limit r = Z.of_nat L ->
   d_state s = ST_BUSY -> d_step s = DS_RECV_WITH_CHECK_LIMIT -> d_queue s = [] -> d_ready s = 0 ->
   h_mode (p_conf (d_p s)) = UNACKED -> p_rcfg (d_p s) = Some r -> p_tid (d_p s) = Some (a, b) ->
   p_check_timer (d_p s) = Some (now_d s, l_check_ms (d_cfg s)) -> p_check_count (d_p s) = 0 ->
-  p_disp (d_p s) <> DISP_CANCELED -> p_md_only (d_p s) = false ->
+  p_md_only (d_p s) = false -> f_deliv (p_fin (d_p s)) = DATA_INCOMPLETE ->
   (* the file as it is does not verify, and nothing arrives any more *)
-  (p_cktype (d_p s) = CK_CRC32 \/ p_cktype (d_p s) = CK_CRC32C \/ p_cktype (d_p s) = CK_MODULAR) ->
+  p_cktype (d_p s) <> CK_NULL ->
   lookup (fs_d s) (p_file_name (d_p s)) = Some (File d) ->
   calculate_checksum (p_cktype (d_p s)) (Some d) (p_progress (d_p s)) 4096 = Ok ck -> ck <> p_crc32 (d_p s) ->
   get_fault_handler (l_faults (d_cfg s)) C_CHECKSUM_FAILURE = Some FH_IGNORE ->
   get_fault_handler (l_faults (d_cfg s)) C_CHECK_LIMIT = Some FH_CANCEL ->
+  let ms := l_check_ms (d_cfg s) in
   let h := set_dir TOWARDS_SENDER (p_conf (d_p s)) in
   let f := p_fin (d_p s) in
-  let del := r_disposition r && (f_deliv f =? DATA_INCOMPLETE) in
-  let fstatus' := if del then FS_DISCARDED_DELIBERATELY else f_fstatus f in
-  let fin := PFinished h C_CHECK_LIMIT (f_deliv f) fstatus' (f_fl f) in
+  let fstatus' := if r_disposition r then FS_DISCARDED_DELIBERATELY else f_fstatus f in
+  let fin := PFinished h C_CHECK_LIMIT DATA_INCOMPLETE fstatus' (f_fl f) in
+  let ign := EvFault FH_IGNORE a b C_CHECKSUM_FAILURE (p_progress (d_p s)) in
+  (* expiries 1 .. L-1 only count *)
+  (forall k, (k < L)%nat ->
+     expires_d k ms s =
+       (s <| d_p ::= (fun p => p <| p_check_count := Z.of_nat k |>
+                                 <| p_check_timer := Some (now_d s + Z.of_nat k * ms, ms) |>) |>
+          <| d_env ::= (fun e => e <| e_now := now_d s + Z.of_nat k * ms |> <| e_log := repeat ign k ++ log_d s |>) |>,
+        Ok (repeat [] k))) /\
+  (* the L-th declares Check Limit Reached and completes the cancelled transaction *)
   exists s',
-    expires_d L (l_check_ms (d_cfg s)) s =
-      (s', Ok (repeat [] (L - 1) ++ [if p_closure (d_p s) then [fin] else []])) /\
-    d_state s' = ST_IDLE /\ d_step s' = DS_IDLE /\ d_queue s' = [] /\
-    fs_d s' = (if del then fst (fs_delete_file (fs_d s) (p_file_name (d_p s))) else fs_d s) /\
-    (l_ind_fin (d_cfg s) = true ->
-       exists l, log_d s' = EvFinished a b C_CHECK_LIMIT (f_deliv f) fstatus' (f_fl f) :: l).
+    expires_d L ms s = (s', Ok (repeat [] (L - 1) ++ [if p_closure (d_p s) then [fin] else []])) /\
+    d_state s' = ST_IDLE /\ d_step s' = DS_IDLE /\ d_queue s' = [] /\ d_ready s' = 0 /\ d_p s' = fresh_params /\
+    d_cfg s' = d_cfg s /\ now_d s' = now_d s + Z.of_nat L * ms /\
+    fs_d s' = (if r_disposition r then fst (fs_delete_file (fs_d s) (p_file_name (d_p s))) else fs_d s) /\
+    log_d s' = (if l_ind_fin (d_cfg s) then [EvFinished a b C_CHECK_LIMIT DATA_INCOMPLETE fstatus' (f_fl f)] else []) ++
+               EvFault FH_CANCEL a b C_CHECK_LIMIT (p_progress (d_p s)) :: repeat ign L ++ log_d s.
 Proof. exact dest_check_limit_closed. Qed.
 Print Assumptions c13_dest_check_limit_closed.
